@@ -136,6 +136,7 @@ class RefServer(object):
         if self.tx_cipher is not None:
             data = self.tx_cipher.encrypt(data)
         self.tx_off += len(data)
+        self.conn.frame_ends.append(self.tx_off)
         self.conn.push(data)
 
     def close(self):
